@@ -1631,6 +1631,14 @@ func graphHasEdge(g []int64) bool {
 
 func gen(rng *vh.Rng, n int, emit func(id string, sel int, in []int64, kind string, nontrivial bool, desc any)) {
 	selfCheck()
+	// 0. the Coq witness C09_create_minavail_needs_crd_bound on the real code: two negative
+	// replica counts wrap the int32 total to +2147483647, minAvailable 5 is admitted
+	{
+		one := mTask{Name: 4, Replicas: -2147483648, Tm: 1}
+		two := mTask{Name: 5, Replicas: -1, Tm: 1}
+		j := mJob{Name: 2001, Tasks: []mTask{one, two}, MinAvail: 5, Queue: 2}
+		emit("create-negative-replicas-wrap", 1, createTokens(baseQueues, j, false), "create/negative-replicas-wrap", true, descJob(j))
+	}
 	// 1. every defect class once per round on a fresh valid job, plus the valid job itself
 	rc := rng.Fork()
 	for i := 0; i < n/10+1; i++ {
